@@ -19,15 +19,15 @@ import (
 // Sched is one crash schedule of the indexing service over one recorded chain.
 type Sched struct {
 	ID    string
-	Start int64   // chain height at which the service is started for the first time (index is empty)
-	Tip   int64   // height the chain has reached when the service catches up / is restarted
-	Die   []int   // per run: die immediately before this physical operation (0 = run to the end)
-	Mode  string  // "service" (real EVMIndexerService) | "direct" (IndexBlock driven in the given order)
+	Start int64  // chain height at which the service is started for the first time (index is empty)
+	Tip   int64  // height the chain has reached when the service catches up / is restarted
+	Die   []int  // per run: die immediately before this physical operation (0 = run to the end)
+	Mode  string // "service" (real EVMIndexerService) | "direct" (IndexBlock driven in the given order)
 	// pruning scenario (service mode): run 0 catches up to Tip1 and is stopped gracefully; before run 1 the node has
 	// pruned its block store: blocks below Earliest are gone
 	Tip1     int64
 	Earliest int64
-	Order []int64 // direct mode: heights in the order they are indexed (may repeat, may go backwards)
+	Order    []int64 // direct mode: heights in the order they are indexed (may repeat, may go backwards)
 }
 
 // SchedResult is what one schedule produced.
